@@ -114,7 +114,16 @@ def _case(draw, tier):
     b = draw(st.integers(a + 1, hi))
     chains.append([(4 * k0 + a) / (4.0 * q), (4 * k0 + b) / (4.0 * q)])
     times = [pt() for _ in range(draw(st.integers(1, 6)))]
-    return dict(f=f, chains=chains, times=times)
+    if q == 1 and draw(st.sampled_from([False, False, False, True])):
+        # the same function written with Python ints (integer breakpoints; values
+        # integer or not): queries must not depend on how the numbers were typed
+        f["int_x"] = True
+        f["int_y"] = draw(st.booleans())
+        if f["int_y"]:
+            for key in ("y", "y1", "y2"):
+                if key in f:
+                    f[key] = [float(int(v)) for v in f[key]]
+    return dict(f=f, chains=chains, times=times, shuffle=draw(st.booleans()))
 
 
 def _enum(tier, shard, nshards):
@@ -161,6 +170,12 @@ def _model(f):
 
 def _real(f):
     import pyspike
+    if f.get("int_x"):
+        x = [int(v) for v in f["x"]]
+        conv = (lambda L: [int(v) for v in L]) if f.get("int_y") else (lambda L: list(L))
+        if f["kind"] == "pwc":
+            return pyspike.PieceWiseConstFunc(x, conv(f["y"]))
+        return pyspike.PieceWiseLinFunc(x, conv(f["y1"]), conv(f["y2"]))
     if f["kind"] == "pwc":
         return pyspike.PieceWiseConstFunc(np.array(f["x"]), np.array(f["y"]))
     return pyspike.PieceWiseLinFunc(np.array(f["x"]), np.array(f["y1"]), np.array(f["y2"]))
@@ -169,6 +184,8 @@ def _real(f):
 def classify(case):
     f = case["f"]
     labels = ["kind:" + f["kind"], "pieces=%d" % min(len(f["x"]) - 1, 9)]
+    if f.get("int_x"):
+        labels.append("integer_breakpoints")
     xs = set(f["x"][1:-1])
     for ch in case["chains"]:
         for a, b in zip(ch, ch[1:]):
@@ -253,6 +270,8 @@ def run_case(case, ctx):
             ivs = [(a, b) for a, b in zip(ch, ch[1:])]
             # every second sub-interval: a genuine list of disjoint intervals
             sub = ivs[::2]
+            if case.get("shuffle"):
+                sub = sub[::-1]          # the order of the intervals must not matter
             gm = ctx.call("avrg_interval_list", real.avrg, sub)
             ref = sum(model.integral(Fr(a), Fr(b)) for a, b in sub) / \
                 sum(Fr(b) - Fr(a) for a, b in sub)
